@@ -135,6 +135,14 @@ func RedactMongoLog(jsonStr string) (*orderedmap.OrderedMap[string, any], error)
 	return entry, nil
 }
 
+// isFieldNameKey reports whether an object key can be a user-defined field name. A key that
+// starts with '$' never is: it is an operator ($sum, $toLower, ...) or an extended-JSON wrapper
+// ($oid, $date, ...), also when the operator tables do not list it, and is kept as it is when
+// field names are redacted.
+func isFieldNameKey(k string) bool {
+	return !strings.HasPrefix(k, "$")
+}
+
 func redactNamespace(cmd *orderedmap.OrderedMap[string, any]) {
 	searchedFields := []string{"ns", "aggregate", "insert", "find", "update", "collection", "delete", "$db", "count", "findAndModify", "findandmodify", "findOneAndDelete", "replace", "findOneAndReplace", "findOneAndUpdate", "getIndexes", "countDocuments"}
 	for _, field := range searchedFields {
@@ -341,7 +349,7 @@ func redactPipelineStage(stage interface{}, redactFieldNames bool, keyPath []str
 			redactedKey := k
 			newKeyPath := append(keyPath, k)
 			opMeta, isOp := getOp(newKeyPath, inSearchStage)
-			if redactFieldNames && (!isOp || (isOp && opMeta == nil)) {
+			if redactFieldNames && (!isOp || (isOp && opMeta == nil)) && isFieldNameKey(k) {
 				redactedKey = HashName(k)
 			}
 			if isOp && inSearchStage && opMeta != nil {
@@ -501,7 +509,7 @@ func redactPipelineStage(stage interface{}, redactFieldNames bool, keyPath []str
 						}
 						redactedSubK := subK
 						metaVal, metaOk := meta.Get(subK)
-						if redactFieldNames && (!subFound || (subFound && metaVal == nil && metaOk)) {
+						if redactFieldNames && (!subFound || (subFound && metaVal == nil && metaOk)) && isFieldNameKey(subK) {
 							redactedSubK = HashName(subK)
 						}
 						switch subVTyped := subV.(type) {
@@ -681,7 +689,7 @@ func redactDocument(obj *orderedmap.OrderedMap[string, any], redactFieldNames bo
 			coreOp, isOp = CoreOperators.Get(k)
 		}
 		if redactFieldNames {
-			if !isOp {
+			if !isOp && isFieldNameKey(k) {
 				redactedKey = HashName(k)
 			}
 		}
